@@ -153,7 +153,9 @@ impl FileDesc {
                 })?;
 
                 if let SchemeSpecific::RaptorQ(scheme) = oti.scheme_specific.as_mut().unwrap() {
-                    scheme.source_blocks_length = nb_blocks;
+                    // Z >= 1 (RFC 6330 section 3.3.3): an empty object has no block but Z = 0 is not a
+                    // valid FTI and is rejected by the receiver
+                    scheme.source_blocks_length = nb_blocks.max(1);
                 }
             } else if oti.fec_encoding_id == oti::FECEncodingID::Raptor {
                 if oti.scheme_specific.is_none() {
@@ -171,7 +173,8 @@ impl FileDesc {
                 })?;
 
                 if let SchemeSpecific::Raptor(scheme) = oti.scheme_specific.as_mut().unwrap() {
-                    scheme.source_blocks_length = nb_blocks;
+                    // Z >= 1 (RFC 5053 section 3.2.3), see above
+                    scheme.source_blocks_length = nb_blocks.max(1);
                 }
             }
         }
